@@ -781,6 +781,27 @@ func iteLoad(elems []value, idx symI) value {
 		}
 		return out
 	}
+	if _, isBool := elems[0].(bool); isBool {
+		// a table of booleans (e.g. a [256]bool character class) indexed by a symbolic byte
+		allBool := true
+		var ds []string
+		for i, e := range elems {
+			bv, ok := e.(bool)
+			if !ok {
+				allBool = false
+				break
+			}
+			if bv {
+				ds = append(ds, fmt.Sprintf("(= %s %s)", idx.t, bvConst(uint64(i), idx.w)))
+			}
+		}
+		if allBool {
+			if len(ds) == 0 {
+				return false
+			}
+			return boolVal(mkOr(ds...))
+		}
+	}
 	groups := map[string][]int{}
 	var order []string
 	w, signed, kind := 0, false, types.Invalid
